@@ -4,7 +4,7 @@
 From Coq Require Import List ZArith Bool Arith.
 From Coq Require Import Permutation.
 From Krrood Require Import Base.Sx Eql.Syntax Eql.Sat Eql.Eval Eql.EvalProofs Eql.CountProofs Eql.RunProofs Eql.Show.
-From Krrood Require Import Eql.BagProofs Eql.ShowFrag.
+From Krrood Require Import Eql.BagProofs Eql.ShowFrag Eql.QuantSpec.
 Import ListNotations.
 Open Scope nat_scope.
 
@@ -36,6 +36,15 @@ Theorem C02_rows_exactly_once : forall W D, (forall x, NoDup (D x)) -> forall q 
   (forall x, In x (flat_map opnd_vars (q_sels q)) -> In x (cond_vars c)) ->
   Permutation (run W D q) (answers_exec W D q).
 Proof. exact run_perm. Qed.
+
+(* consequently the(...) succeeds exactly when there is one satisfying assignment (it sees the Spec's enumeration up to
+   order), and result-count constraints see the true number of solutions; what the(...) / an(..., quantification=c) do
+   with a row list is C09 (C09_the : run_the rows = the_spec rows, C09_an) *)
+Theorem C02_the_sees_true_count : forall W D, (forall x, NoDup (D x)) -> forall q c,
+  q_cond q = Some c -> nnf c = true ->
+  (forall x, In x (flat_map opnd_vars (q_sels q)) -> In x (cond_vars c)) ->
+  the_spec (run W D q) = the_spec (answers_exec W D q) /\ length (run W D q) = length (answers_exec W D q).
+Proof. exact the_sees_true_count. Qed.
 
 (* the decidable flag the correspondence check computes for every generated case is covered by that theorem *)
 Theorem C02_fragment_flag : forall c, case_in_F02 c = true ->
@@ -86,6 +95,7 @@ Print Assumptions C02_partition.
 Print Assumptions C02_exactly_once.
 Print Assumptions C02_true_total.
 Print Assumptions C02_rows_exactly_once.
+Print Assumptions C02_the_sees_true_count.
 Print Assumptions C02_fragment_flag.
 Print Assumptions C02_fragment_is_union_free.
 Print Assumptions C02_or_choice.
